@@ -9,7 +9,7 @@ def gen_batch(repo):
         txt = X._strip_comments(X._read(repo, rel))
         m = re.search(r'::Export\(\)\s*\{(.*?)\n\}\n', txt, re.S)
         if not m:
-            raise X.ExtractError(f'{rel}: Export() not found')
+            raise X.ShapeChanged(f'{rel}: Export() not found')
         body = m.group(1)
         # the shape of Export() the protocol model mirrors
         checks = [
@@ -21,17 +21,17 @@ def gen_batch(repo):
         ]
         for pat, what in checks:
             if not re.search(pat, body, re.S):
-                raise X.ExtractError(f'{rel}: Export() no longer has the shape the model mirrors ({what})')
+                raise X.ShapeChanged(f'{rel}: Export() no longer has the shape the model mirrors ({what})')
         if len(re.findall(r'buffer_\.size\(\)', body)) != 1:
-            raise X.ExtractError(f'{rel}: Export() reads buffer_.size() more than once')
+            raise X.ShapeChanged(f'{rel}: Export() reads buffer_.size() more than once')
         # NotifyCompletion: exporter ForceFlush before the ticket is published
         m = re.search(r'::NotifyCompletion\((.*?)\n\}\n', txt, re.S)
         if not m or not re.search(r'exporter->ForceFlush\(.*?compare_exchange_strong', m.group(1), re.S):
-            raise X.ExtractError(f'{rel}: NotifyCompletion: exporter->ForceFlush no longer precedes the publication of the ticket')
+            raise X.ShapeChanged(f'{rel}: NotifyCompletion: exporter->ForceFlush no longer precedes the publication of the ticket')
         # Shutdown: exporter shut down only by the caller that found is_shutdown false, after the join
         m = re.search(r'::Shutdown\(std::chrono::microseconds timeout\) noexcept\s*\{(.*?)\n\}\n', txt, re.S)
         if not m or not re.search(r'shutdown_m.*is_shutdown\.exchange\(true\).*worker_thread_\.join\(\).*if\s*\(\s*!already_shutdown\s*&&\s*exporter_\s*!=\s*nullptr\s*\)\s*\{\s*return\s+exporter_->Shutdown', m.group(1), re.S):
-            raise X.ExtractError(f'{rel}: Shutdown() no longer has the lock / exchange / join / exporter-once shape')
+            raise X.ShapeChanged(f'{rel}: Shutdown() no longer has the lock / exchange / join / exporter-once shape')
         out.append(f'def batch{tag}OneSnapshot : Bool := true\n')
     out.append('end Otel.Gen\n')
     return '\n'.join(out)
